@@ -48,7 +48,7 @@ func init() {
 			poolInts = append(poolInts, d)
 		}
 	}
-	for _, v := range []int64{0, 1, 2, 3, 5, 7, 10, 100, 1000003, 3037000499, 3037000500, 4611686018427387904, 6074001000, 1 << 31, 1<<31 - 1, 1 << 32, 1<<32 - 1} {
+	for _, v := range []int64{0, 1, 2, 3, 5, 7, 10, 100, 1074, 1075, 1000003, 3037000499, 3037000500, 4611686018427387904, 6074001000, 1 << 31, 1<<31 - 1, 1 << 32, 1<<32 - 1} {
 		add(big.NewInt(v))
 		add(big.NewInt(-v))
 	}
@@ -61,7 +61,7 @@ func init() {
 		}
 	}
 	// small values held in the big representation (the code does not normalise)
-	poolInts = append(poolInts, "Big:0", "Big:1", "Big:-1", "Big:5", "Big:512", "Big:511", "Big:9223372036854775807", "Big:-9223372036854775808")
+	poolInts = append(poolInts, "Big:0", "Big:1", "Big:-1", "Big:5", "Big:512", "Big:511", "Big:1074", "Big:1075", "Big:9223372036854775807", "Big:-9223372036854775808")
 
 	poolFloats = []string{
 		"F64:0p0", "F64:-0", "F64:1p0", "F64:-1p0", "F64:1p1", "F64:1p-1", "F64:3p-1", "F64:5p-1", "F64:3p0", "F64:1p-1074", "F64:9007199254740991p971",
@@ -156,8 +156,10 @@ func opCases(c *Ctx) {
 			opCase(c, "repr", k, x)
 		}
 		opCase(c, "zero", x)
-		opCase(c, "shifterr", "<<", x)
-		opCase(c, "shifterr", ">>", x)
+		for _, x1 := range []string{"I64:0", "I64:1", "Big:0", "F64:-0", "Rat:1/3"} {
+			opCase(c, "shifterr", "<<", x1, x)
+			opCase(c, "shifterr", ">>", x1, x)
+		}
 	}
 	for _, x := range append(append([]string{}, poolStrs...), poolBools...) {
 		for _, op := range []string{"+", "-", "!", "^"} {
@@ -220,7 +222,7 @@ func opCases(c *Ctx) {
 		}
 	}
 	// shifts: every number as left operand, a set of counts
-	counts := []string{"I64:0", "I64:1", "I64:63", "I64:64", "I64:65", "I64:511", "I64:512", "I64:513", "I64:-1", "Big:18446744073709551615", "Big:18446744073709551616", "F64:1p1", "F64:3p-1", "Rat:4/1", "Rat:1/3", "BigF:1p3", "Cplx:I64:2,I64:0", "Cplx:I64:2,I64:1", "Big:3", "Big:-3", "I64:448", "I64:449", "I64:1074", "I64:9223372036854775807"}
+	counts := []string{"I64:0", "I64:1", "I64:63", "I64:64", "I64:65", "I64:511", "I64:512", "I64:513", "I64:-1", "Big:18446744073709551615", "Big:18446744073709551616", "F64:1p1", "F64:3p-1", "Rat:4/1", "Rat:1/3", "BigF:1p3", "Cplx:I64:2,I64:0", "Cplx:I64:2,I64:1", "Big:3", "Big:-3", "I64:448", "I64:449", "I64:1074", "I64:1075", "Big:1074", "Big:1075", "F64:537p1", "F64:1075p0", "I64:9223372036854775807"}
 	for i, x := range all {
 		for j, n := range counts {
 			if !c.Thorough() && (i+j)%3 != 0 {
@@ -542,31 +544,27 @@ func signature(d *Decl, v verdict) string {
 		e := d.E
 		isShift := e.K == "bin" && (e.Op == "<<" || e.Op == ">>")
 		switch {
-		case v.kind == "fault" && hasComplex(e):
-			// the complex operations ignore the errors of the operations on the parts
-			return "complex-overflow-fault"
+		case v.kind == "rejects:bigoverflow" && e.K == "bin" && opGroup(e.Op) != "cmp" && (goClass(e.X) == "uc" || goClass(e.Y) == "uc"):
+			// an integer part of a complex operation exceeds 512 bits: Scriggo
+			// returns the overflow error of the part operation (before fix
+			// df0b361 it panicked), go/types does not bound the parts of a
+			// complex constant
+			return "complex-int-part-over-512-bits"
 		case v.kind == "rejects:invalidop" && isShift && (goClass(e.Y) == "tf" || goClass(e.Y) == "tc"):
 			// go/types accepts a typed float constant count, the spec and Scriggo do not
 			return "shift-count-typed-float"
-		case v.kind == "accepts:invalidop" && e.K == "bin" && opGroup(e.Op) == "cmp" && (goClass(e.X) == "tc" || goClass(e.Y) == "tc" || goClass(e.X) == "?" || goClass(e.Y) == "?") && hasComplex(e):
-			return "typed-complex-ordered-comparison"
 		}
 		if v.near {
 			return "float-rounding-visible"
 		}
-		if v.kind == "value" && e.K == "conv" && isFloatType(e.Kind) && ratDoubleRounding(e) {
-			// a rational that is not a float64 is rounded to 512 bits first, then to the float type
-			return "rat-float-double-rounding"
-		}
-		if strings.HasPrefix(v.kind, "accepts:") && e.K == "bin" && e.Op == ">>" && (goClass(e.X) == "uf" || goClass(e.X) == "uc") {
-			return "shr-of-float-above-512-bits"
+		if v.kind == "value" && e.K == "bin" && (opGroup(e.Op) == "arith" || e.Op == "/") && typedFloatDoubleRounding(e) {
+			// typed float or complex operands: every operation on the parts is
+			// rounded to 512 bits and the result is then rounded to the type
+			return "float-rounding-visible"
 		}
 		if d.T != "" {
 			if w := compare((&Decl{E: e}).Program()); w.kind == "" && w.soft {
 				return "float-rounding-visible"
-			}
-			if v.kind == "value" && isFloatType(d.T) && ratDoubleRounding(&Expr{K: "conv", Kind: d.T, X: e}) {
-				return "rat-float-double-rounding"
 			}
 		}
 	}
@@ -578,11 +576,6 @@ func signature(d *Decl, v verdict) string {
 		cls = "decl-" + d.T + "/" + goClass(d.E)
 	default:
 		cls = exprClass(d.E)
-	}
-	if strings.HasSuffix(v.kind, ":shiftcount") {
-		// go/types bounds every constant shift count by 1074 (an implementation
-		// restriction); Scriggo bounds only left shifts, by 511
-		return "shift-count-limit"
 	}
 	if (v.kind == "value" || strings.HasPrefix(v.kind, "accepts") || strings.HasPrefix(v.kind, "rejects")) && d.A == nil && softOperand(d.E) {
 		return "float-rounding-visible"
@@ -861,6 +854,43 @@ var corpus = []string{
 	"const C = \"a\" + \"b\" < \"b\"",
 	"const C = 1 << 3.0",
 	"const C = -1 >> 70",
+	// regressions of fix df0b361 (these made Build panic); what is left of them
+	// is the known finding complex-int-part-over-512-bits
+	"const C = (1<<511 + 0i) * (1<<511 + 0i)",
+	"const C = 1e3i / ((1 << 256) + 1)",
+	"const C = (1<<300 + 1i) * (1<<300 - 1i)",
+	"const C = (1 << 511 * 1i) * (1 << 511 * 1i)",
+	"const C = (3 + 1 << 300 * 1i) * (5 + 1 << 300 * 1i)",
+	"const C = 1 / (1 << 300 * 1i)",
+	// regressions of fix 01e9b06 (ordered comparison of complex constants was accepted)
+	"const C = complex128(1) < 2",
+	"const C = complex64(1) >= complex64(2)",
+	"const C = 2 < (1+0i)",
+	"const C = complex128(1) == 1",
+	// regressions of fix c78e043 (the result of >> was not checked against the 512 bit limit)
+	"const C = 0x1p1000 >> 65",
+	"const C = 0x1p600 >> 200",
+	"const C = 1e400 >> 1",
+	"const C = 1e400 >> 1000",
+	// regressions of fix 9f165da (a rational that is not a float64 was rounded to 512 bits first, then to the float type)
+	"const C = float64(1e-400 + 9007199254740993.0)",
+	"const C = float32(1e-400 + 16777217.0)",
+	"const C float64 = 1e-400 + 9007199254740993.0",
+	"const C = complex64(1e-400 + 16777217.0)",
+	"const C = float64(1e400 / 3)",
+	"const C = float64(-1e-400 / 3)",
+	// regressions of fix d3683c7 (the count limit was 511 for << only, also for a zero operand)
+	"const C = 0 << 512",
+	"const C = 0 << 1074",
+	"const C = 0 << 1075",
+	"const C = 1 >> 2000",
+	"const C = 1 >> 1074",
+	"const C = 1 >> 1075",
+	"const C = 1 << 512",
+	"const C = 0.0 << 600",
+	"const C = int8(0) << 600",
+	"const C = uint8(1) << 600",
+	"const C = -1 >> 1074",
 }
 
 // oracleDefect recognises the one input class on which go/constant itself is
@@ -893,32 +923,19 @@ func isFloatType(t string) bool {
 	return t == "float32" || t == "float64" || t == "complex64" || t == "complex128"
 }
 
-// descParts returns the descriptions of the real and imaginary part of a number constant.
-func descParts(desc string) []string {
-	if strings.HasPrefix(desc, "Cplx:") {
-		if p := splitCplx(desc[5:]); p != nil {
-			return p
-		}
-		return nil
-	}
-	return []string{desc, "I64:0"}
-}
-
-// ratDoubleRounding decides, by recomputation, whether the value difference of
-// the conversion e = T(U) to a float or complex type is exactly the recorded
-// finding: U is held exactly by Scriggo (same value as go/constant), Go's
-// result is U rounded once to the float type, and Scriggo's result is what
-// rounding a ratConst part that is not a float64 to 512 bits first and then
-// to the float type gives (every other part rounded once).
-func ratDoubleRounding(e *Expr) bool {
-	if e.X.HasRef() {
+// typedFloatDoubleRounding decides, by recomputation, whether the value
+// difference of the operation e = X op Y on operands of a float or complex
+// type is exactly the recorded finding float-rounding-visible: Scriggo holds
+// the operands exactly as go/constant does, and its result is what the
+// operations on the parts give when each of them is executed by big.Float at
+// 512 bits and the parts are then rounded to the type, while Go rounds the
+// exact result once.
+func typedFloatDoubleRounding(e *Expr) bool {
+	if e.HasRef() {
 		return false
 	}
-	up := (&Decl{E: e.X}).Program()
-	u, gu := scEval(up), goEval(up)
-	rp := (&Decl{E: e}).Program()
-	r, gr := scEval(rp), goEval(rp)
-	if u.Err != "" || gu.Err != "" || r.Err != "" || gr.Err != "" || !u.IsNum || !r.IsNum || gu.Re == nil || gr.Re == nil {
+	t := goType(e)
+	if !isFloatType(t) {
 		return false
 	}
 	zero := new(big.Rat)
@@ -928,48 +945,74 @@ func ratDoubleRounding(e *Expr) bool {
 		}
 		return x
 	}
-	if u.Re.Cmp(gu.Re) != 0 || or0(u.Im).Cmp(or0(gu.Im)) != 0 {
-		return false // the operand itself differs
-	}
-	is32 := e.Kind == "float32" || e.Kind == "complex64"
-	once := func(q *big.Rat) *big.Rat {
-		if is32 {
-			f, _ := q.Float32()
-			return new(big.Rat).SetFloat64(float64(f))
+	var val [2][2]*big.Float
+	for i, o := range []*Expr{e.X, e.Y} {
+		oe := o
+		if goType(o) != t {
+			oe = &Expr{K: "conv", Kind: t, X: o}
 		}
-		f, _ := q.Float64()
-		return new(big.Rat).SetFloat64(f)
-	}
-	twice := func(q *big.Rat) *big.Rat {
-		b := new(big.Float).SetPrec(512).SetRat(q)
-		if is32 {
-			f, _ := b.Float32()
-			return new(big.Rat).SetFloat64(float64(f))
-		}
-		f, _ := b.Float64()
-		return new(big.Rat).SetFloat64(f)
-	}
-	parts := descParts(u.Desc)
-	if parts == nil {
-		return false
-	}
-	vals := []*big.Rat{u.Re, or0(u.Im)}
-	got := []*big.Rat{r.Re, or0(r.Im)}
-	want := []*big.Rat{gr.Re, or0(gr.Im)}
-	differs := false
-	for i := 0; i < 2; i++ {
-		exp := once(vals[i])
-		if strings.HasPrefix(parts[i], "Rat:") {
-			if _, exact := vals[i].Float64(); !exact {
-				exp = twice(vals[i])
-			}
-		}
-		if exp == nil || got[i].Cmp(exp) != 0 || want[i].Cmp(once(vals[i])) != 0 {
+		p := (&Decl{E: oe}).Program()
+		sv, gv := scEval(p), goEval(p)
+		if sv.Err != "" || gv.Err != "" || !sv.IsNum || gv.Re == nil {
 			return false
 		}
-		if got[i].Cmp(want[i]) != 0 {
-			differs = true
+		if sv.Re.Cmp(gv.Re) != 0 || or0(sv.Im).Cmp(or0(gv.Im)) != 0 {
+			return false // an operand differs
+		}
+		val[i] = [2]*big.Float{new(big.Float).SetPrec(512).SetRat(gv.Re), new(big.Float).SetPrec(512).SetRat(or0(gv.Im))}
+		if x, _ := val[i][0].Rat(nil); x.Cmp(gv.Re) != 0 {
+			return false // not exact at 512 bits
+		}
+		if x, _ := val[i][1].Rat(nil); x.Cmp(or0(gv.Im)) != 0 {
+			return false
 		}
 	}
-	return differs
+	rp := (&Decl{E: e}).Program()
+	r, gr := scEval(rp), goEval(rp)
+	if r.Err != "" || gr.Err != "" || !r.IsNum || gr.Re == nil {
+		return false
+	}
+	nf := func() *big.Float { return new(big.Float).SetPrec(512) }
+	mul := func(x, y *big.Float) *big.Float { return nf().Mul(x, y) }
+	add := func(x, y *big.Float) *big.Float { return nf().Add(x, y) }
+	sub := func(x, y *big.Float) *big.Float { return nf().Sub(x, y) }
+	a, b, c, d := val[0][0], val[0][1], val[1][0], val[1][1]
+	var re, im *big.Float
+	switch e.Op {
+	case "+":
+		re, im = add(a, c), add(b, d)
+	case "-":
+		re, im = sub(a, c), sub(b, d)
+	case "*":
+		re, im = sub(mul(a, c), mul(b, d)), add(mul(b, c), mul(a, d))
+	case "/":
+		sq := add(mul(c, c), mul(d, d))
+		if sq.Sign() == 0 {
+			return false
+		}
+		re = nf().Quo(add(mul(a, c), mul(b, d)), sq)
+		im = nf().Quo(sub(mul(b, c), mul(a, d)), sq)
+		if d.Sign() == 0 && b.Sign() == 0 {
+			re, im = nf().Quo(a, c), nf()
+		}
+	default:
+		return false
+	}
+	is32 := t == "float32" || t == "complex64"
+	toType := func(f *big.Float) *big.Rat {
+		if is32 {
+			x, _ := f.Float32()
+			return new(big.Rat).SetFloat64(float64(x))
+		}
+		x, _ := f.Float64()
+		return new(big.Rat).SetFloat64(x)
+	}
+	wr, wi := toType(re), toType(im)
+	if wr == nil || wi == nil {
+		return false
+	}
+	if r.Re.Cmp(wr) != 0 || or0(r.Im).Cmp(wi) != 0 {
+		return false // not what the 512 bit operations give
+	}
+	return r.Re.Cmp(gr.Re) != 0 || or0(r.Im).Cmp(or0(gr.Im)) != 0
 }
